@@ -124,6 +124,15 @@ def run(tier, seed):
                 d['seed'] = seed * 1000003 + sum(map(ord, d['name'])) * 7919 + len(d['name'])
             total.merge(common.run_shards(shard, descs))
             total.count('variant_%s_runs' % variant)
+        # sample sizes beyond 2^32 (self-merging in both tiers; thorough: also genuinely add-only runs of 2^32+ adds)
+        import bigcount
+        for variant in ('release', 'dev'):
+            binary = build(variant)
+            bc = [(t, ka, kb) for t in ('Mean', 'Variance') for ka, kb in [(16, 16), (31, 31), (32, 32), (33, 0), (33, 33), (40, 20), (53, 0)]]
+            descs = [{'name': 'b%s%d' % (variant[0], s), 'variant': variant, 'binary': binary, 'work': bc[s::8], 'prop': PROP,
+                      'ar_work': ([(('Mean', 'Variance')[s % 2], 2 ** 32 + 1000 + s)] if (tier == 'thorough' and variant == 'release' and s < 4) else []),
+                      'seed': seed * 7 + s} for s in range(8)]
+            total.merge(common.run_shards(bigcount.shard, descs))
         lres, rows = ladder(build('release'))
         total.merge(lres)
         extra['conditioning_ladder'] = rows
@@ -131,4 +140,4 @@ def run(tier, seed):
     except common.Inconclusive as e:
         total.inconclusive.append(str(e))
     return common.finish(PROP, tier, seed, total, RULE, t0, ASSUME,
-                         min_events={'nontrivial_states': 1000, 'ladder_points': 39}, extra=extra)
+                         min_events={'nontrivial_states': 1000, 'ladder_points': 39, 'bigcount_states_above_2^32': 20}, extra=extra)
